@@ -8,11 +8,31 @@ open Finset
 def projMsk (k nk m : Nat) (b : Idx → Bool) (j : Idx) : Bool :=
   (List.range nk).any fun h => decide (m - (nk - 1 - h) ≤ j.getD k 0 ∧ j.getD k 0 ≤ min h m) && b (j.set k h)
 
+/-- the generated window `least ≤ j ≤ most` in closed form (truncated subtraction), for a source count inside the axis -/
+theorem inWin_eq (n m h j : Nat) (hh : h ≤ n) : inWin n m h j = decide (m - (n - h) ≤ j ∧ j ≤ min h m) := by
+  unfold inWin Gen.projLeast Gen.projMost
+  rw [decide_eq_decide]
+  constructor
+  · rintro ⟨h1, h2⟩; constructor <;> omega
+  · rintro ⟨h1, h2⟩; constructor <;> omega
+
 theorem projectAxis_dat (k m : Nat) (S : FS) :
     (projectAxis k m S).dat = projDat (projW (S.shape.getD k 0 - 1) m) k (S.shape.getD k 0) S.dat := rfl
 
 theorem projectAxis_msk (k m : Nat) (S : FS) :
-    (projectAxis k m S).msk = projMsk k (S.shape.getD k 0) m S.msk := rfl
+    (projectAxis k m S).msk = projMsk k (S.shape.getD k 0) m S.msk := by
+  funext j
+  show ((List.range (S.shape.getD k 0)).any fun h => inWin (S.shape.getD k 0 - 1) m h (j.getD k 0) && S.msk (j.set k h)) = _
+  unfold projMsk
+  rw [Bool.eq_iff_iff, List.any_eq_true, List.any_eq_true]
+  constructor
+  · rintro ⟨h, hh, hb⟩
+    rw [List.mem_range] at hh
+    rw [inWin_eq _ _ _ _ (by omega)] at hb
+    exact ⟨h, List.mem_range.2 hh, hb⟩
+  · rintro ⟨h, hh, hb⟩
+    rw [List.mem_range] at hh
+    exact ⟨h, List.mem_range.2 hh, by rw [inWin_eq _ _ _ _ (by omega)]; exact hb⟩
 
 theorem projectAxis_shape (k m : Nat) (S : FS) : (projectAxis k m S).shape = S.shape.set k (m + 1) := rfl
 
